@@ -74,7 +74,7 @@ def decode(s, is_bytes):
             if len(h) == k and set(h) <= HEX:
                 v = int(h, 16)
                 if v > 0x10ffff:
-                    raise Undefined()
+                    raise SyntaxError('not a character')     # undecodable, like an incomplete escape
                 out.append(chr(v))
                 i += 2 + k
             else:
@@ -443,7 +443,7 @@ def plan(tier, seed):
                 'non-trivial = the independent decoder changes the text (RAWCHARS on) or the text contains an '
                 'escaped alphanumeric (RAWCHARS off); counted per (string, config)',
         'assumptions': ['identical translate() text implies identical meaning (same code path after norm_pattern)',
-                        '\\U values above 0x10ffff are outside the statement (skipped)',
+                        '\\U values above 0x10ffff count as undecodable (SyntaxError)',
                         'regex->automaton translation is bound to CPython re by replaying every product state'],
         'nontrivial_floor': 1000,
     }
